@@ -267,6 +267,18 @@ def r09_2b(facts, res, table):
             problems.append("a sublanguage (en-US for en) does not match")
         if "http://www.w3.org/XML/1998/namespace" not in lits:
             problems.append("the attribute is not required to be xml:lang (any attribute with the local name lang counts)")
+        # the nearest xml:lang decides, matched or not: where the attribute is found the function answers with the computed
+        # comparison itself; answering only when it matched lets an outer xml:lang overrule an inner one
+        def payloads(g):
+            out = []
+            for m in walk(g["body"]):
+                if m.get("k") == "Call" and str(m["f"].get("path", "")).endswith("Value::Boolean") and m.get("args"):
+                    out.append(m["args"][0])
+            return out
+        pls = payloads(f)
+        if pls and not any(p_.get("k") != "Lit" for p_ in pls):
+            problems.append("the walk over the ancestors answers only with constants (true where an xml:lang matches, false at the end): "
+                            "a non-matching xml:lang on a nearer element does not end the search")
         res.oblige(1, not problems)
         if problems:
             res.add(Finding("R09-2b", "lang", "lang(): %s (XPath 1.0 4.3)" % "; ".join(problems), f["file"], f["line"], {}))
@@ -288,6 +300,40 @@ def if_chain(body):
             e = e["expr"]
     out.append(([], e))
     return out
+
+
+def r09_2c(facts, res, rule="R09-2c"):
+    """IEEE 754: every ordering comparison with NaN is false, so `!(a >= b)` is not `a < b`.  In the evaluator no ordering
+    comparison of two f64 may stand under an odd number of negations (`!x.is_some_and(|e| p >= e)` for `x.map(|e| p < e)
+    .unwrap_or(true)` keeps the characters of substring('12345', 1, 0 div 0))."""
+    st = res.rule(rule, instances=0)
+
+    def go(n, neg, f):
+        if isinstance(n, list):
+            for x in n:
+                go(x, neg, f)
+            return
+        if not isinstance(n, dict):
+            return
+        if n.get("k") == "Unary" and n.get("op") == "!":
+            go(n.get("a"), neg + 1, f)
+            return
+        if n.get("k") == "Binary" and n.get("op") in ("<", "<=", ">", ">=") and \
+                str(n["a"].get("ty", "")).replace("&", "") == "f64" and str(n["b"].get("ty", "")).replace("&", "") == "f64":
+            st["instances"] += 1
+            ok = neg % 2 == 0
+            res.oblige(1, ok)
+            if not ok:
+                res.add(Finding(rule, "%s|%s" % (f["path"], n["op"]), "%s negates the f64 comparison `%s`: with a NaN operand the negation is true where "
+                                "the opposite comparison is false" % (f["path"], n["op"]), f["file"], n.get("ln"), {}))
+        for k, v in n.items():
+            if k != "mir" and isinstance(v, (dict, list)):
+                go(v, neg, f)
+    for f in sorted(facts.fns.values(), key=lambda x: x["path"]):
+        if f["crate"] == "xml_xpath" and f["path"].startswith("xml_xpath::eval") and "body" in f and f["kind"] != "Closure" and "::tests::" not in f["path"]:
+            go(f["body"], 0, f)
+    if st["instances"] < 3:
+        raise BrokenCheck("%s: %d f64 ordering comparisons in the evaluator (floor 3)" % (rule, st["instances"]))
 
 
 def r09_3(facts, res):
@@ -467,6 +513,7 @@ def run(facts, tier):
     table = r09_1(facts, res)
     r09_2(facts, res)
     r09_2b(facts, res, table)
+    r09_2c(facts, res)
     r09_3(facts, res)
     res.functions_analysed = res.rules["R09-2"]["functions"]
     return res
